@@ -283,6 +283,26 @@ def typedExpect (name : String) (a : List String) : Option (String × String) :=
   | "dns_search_list", [lt, ds] => r (dotJoin [numArg? lt 4294967296, namesArg? ds])
   | _, _ => none
 
+
+/-- the dump of the typed getter `name` of a layer, whatever the family's harness convention: a field of that name
+    (L2, Ip, Ip6, Transport, Icmp, App) or an item `name:value` of the Dot11 management frames' `typed=` field
+    (items joined by `|`; an absent item = `option_not_found`) -/
+def typedLookup (l : Layer) (name : String) : Option String :=
+  match l.fields.find? (fun f => f.1 == name) with
+  | some f => some f.2
+  | none =>
+    match l.fields.find? (fun f => f.1 == "typed") with
+    | some t =>
+      (t.2.splitOn "|").findSome? (fun it =>
+        if it.startsWith (name ++ ":") then some ((it.drop (name.length + 1)).toString) else none)
+    | none => none
+
+/-- a typed getter that threw on the option it found: `bad` / `malformed_option` (malformed_option), `mp` /
+    `malformed_packet`, `!<exception>` — the conventions of the seven family harnesses; `none` / `nf` (option_not_found)
+    is not one of them: a raw edit may have removed the option -/
+def typedFailed (v : String) : Bool :=
+  v == "bad" || v == "mp" || v == "malformed_option" || v == "malformed_packet" || v.startsWith "!"
+
 /-- C04 = the wire half (`specReparse`) + "getters reflect exactly the accumulated edits" for the verbatim setters.  A typed
     setter ADDS an option and the typed getter returns the FIRST option of that code ("first matching option"), so what a
     dump must show under `name` is the first value set through that setter — as long as the option list of the layer was
@@ -338,8 +358,8 @@ def spec04 (st : SState) (line : String) : SState × String :=
           -- are not inverse on that value
           let undec := st.typed.filterMap (fun (i, name) =>
             match ls[i]? with
-            | some l => match l.fields.find? (fun f => f.1 == name) with
-              | some f => if f.2 == "bad" || f.2 == "mp" || f.2.startsWith "!" then some s!"layer {i} {name} get={f.2.take 40}" else none
+            | some l => match typedLookup l name with
+              | some v => if typedFailed v then some s!"layer {i} {name} get={v.take 40}" else none
               | none => none
             | none => none)
           -- … and for a representable argument it must return that argument (`typedExpect`)
